@@ -4,7 +4,8 @@ CONSTANTS
   WithH = @WITHH@
   MaxIter = @MAXITER@
   MaxSearch = @MAXSEARCH@
+  MaxRuns = @MAXRUNS@
   Emit = @EMIT@
-INVARIANTS TypeOK ConcludedSound CompleteAtMajor IdleComplete ComplementDisjoint WantIffEval
-PROPERTIES MajorOnlyWhenSound ErrIsFinal StoppedIsFinal
+INVARIANTS TypeOK ConcludedSound CompleteAtMajor IdleComplete ComplementDisjoint WantIffEval NoMajorWithoutConclusion
+PROPERTIES MajorOnlyWhenSound ErrIsFinal StoppedIsFinal ReInitIsStart
 CHECK_DEADLOCK FALSE
